@@ -511,7 +511,9 @@ class Frame(object):
 
         set_to_param = (self.noise_mean == self.noise_std == 0)
         if set_to_param:
-            self.noise_mean, self.noise_std = x_mean, x_std
+            # As floats: parameters given as narrow numpy scalars (or taken from integer tables)
+            # would make get_intensity / get_snr wrap around
+            self.noise_mean, self.noise_std = float(x_mean), float(x_std)
         else:
             self._update_noise_frame_stats()
 
@@ -632,7 +634,9 @@ class Frame(object):
 
         set_to_param = (self.noise_mean == self.noise_std == 0)
         if set_to_param:
-            self.noise_mean, self.noise_std = x_mean, x_std
+            # As floats: parameters given as narrow numpy scalars (or taken from integer tables)
+            # would make get_intensity / get_snr wrap around
+            self.noise_mean, self.noise_std = float(x_mean), float(x_std)
         else:
             self._update_noise_frame_stats()
 
@@ -1007,7 +1011,7 @@ class Frame(object):
         """
         if self.noise_std == 0:
             raise ValueError('You must add noise in the image to specify SNR!')
-        return snr * self.noise_std / np.sqrt(self.tchans)
+        return snr * (self.noise_std / np.sqrt(self.tchans))
 
     def get_snr(self, intensity):
         """
